@@ -1,16 +1,16 @@
 #!/bin/bash
-# Offline setup: full Coq build (.vo, all proofs checked), extraction, OCaml model drivers.
+# Offline setup: full Coq build (.vo, all proofs checked), extraction, OCaml model drivers for every
+# property claimed in MANIFEST.json, and a warm Go build cache for the harness packages.
 set -u
-cd "$(dirname "$0")"
+cd "$(dirname "$(readlink -f "$0")")"
 mkdir -p build/bin build/tmp evidence replay
-lib/coqbuild.sh > build/coq_build.log 2>&1
-rc=$?
-tail -5 build/coq_build.log
-if [ $rc -ne 0 ]; then echo "coq build failed (see build/coq_build.log)"; fi
-for f in ocaml/C*_run.ml; do
-  p=$(basename "$f" _run.ml)
+PROPS=$(python3 -c "import json;print(' '.join(c['property_id'] for c in json.load(open('MANIFEST.json'))['checks']))")
+rc=0
+lib/coqbuild.sh Common > build/coq_build.log 2>&1 || rc=1
+echo $PROPS | tr ' ' '\n' | xargs -P 6 -I{} sh -c 'lib/coqbuild.sh {} > build/coq_build_{}.log 2>&1 || { echo "coq build of {} failed (build/coq_build_{}.log)"; tail -20 build/coq_build_{}.log; exit 1; }' || rc=1
+for p in $PROPS; do
   lib/mlbuild.sh "$p" || { echo "model driver $p failed"; rc=1; }
 done
-# warm the Go build cache for the harness packages (best effort)
-python3 lib/warm.py >/dev/null 2>&1 || true
+python3 lib/warm.py $PROPS >/dev/null 2>&1 || true
+echo "setup done rc=$rc"
 exit $rc
